@@ -241,8 +241,20 @@ def _run(ctx, case, net):
                     if l not in seen_l or len(tg) < 3:
                         seen_l.add(l)
                         tg.append(j)
-                for tgt2 in tg[:5]:
+                for ti_, tgt2 in enumerate(tg[:5]):
                     payload = bytes([k, tgt2]) + b"mesh-send"  # single frame: fragmented multi-hop is C05's known finding
+                    if ti_ == 0:
+                        # two messages of the same type to the same node back to back, while that node's
+                        # application is slow to read: both must arrive
+                        joiners[tgt2].lazy_ns = 60 * W.MS
+                        joiners[tgt2].last_drain = joiners[tgt2].wnode.t
+                        p2 = bytes([k, tgt2]) + b"second-one"
+                        r["sends"].append((tgt2, payload, net.call(nn, "send", o.send, tgt2, "M", payload, deadline_ms=3000)))
+                        r["sends"].append((tgt2, p2, net.call(nn, "send", o.send, tgt2, "M", p2, deadline_ms=3000)))
+                        pump_until(nn, wn.t + 80 * W.MS)
+                        joiners[tgt2].lazy_ns = 0
+                        pump_until(nn, wn.t + 10 * W.MS)
+                        continue
                     r["sends"].append((tgt2, payload, net.call(nn, "send", o.send, tgt2, "M", payload, deadline_ms=3000)))
                     pump_until(nn, wn.t + 15 * W.MS)
             except W.VirtualDeadline:
@@ -368,6 +380,15 @@ def _run(ctx, case, net):
     if tinv["bad"]:
         ctx.violation("master-table-invariant", tinv["bad"], case)
         return
+    # ---- the mesh's own traffic (polls, address requests/responses, lookups) stays below the application
+    if not hostile:
+        ctx.clause("no_system_frames_in_application")
+        for nn in net.nodes:
+            for e in nn.applog:
+                if e["type"] > 127:
+                    ctx.violation("system-frame-handed-to-application", "node %r (at %s) read a type-%d frame from %s "
+                                  "out of its queue" % (nn.key, oct(nn.obj.node_address), e["type"], oct(e["from"])), case)
+                    return
     if mres:
         ctx.clause("master_trivial_answers")
         if mres.get("cc") is not True or mres.get("renew") != 0 or mres.get("addr") != 0:
